@@ -112,14 +112,20 @@ Definition step (st : slots) (o : zop) : slots * list Z :=
                | Stuck => (st0, PANIC) end
   | 18 => (* probe: a clone of the filter inserts the item and is then asked for it (the filter itself is
              unchanged).  The answer is 1 by the no-false-negative theorem (Props/C09.v); the digests are not
-             needed, so filters with thousands of hash functions cost the model nothing. *)
+             needed, so filters with thousands of hash functions cost the model nothing.
+             NOTE: this "model" answer is a constant justified by a theorem, i.e. op 18 is a SPEC check on the
+             crate (insert then contains = true, and no panic), NOT a model-vs-crate comparison of computed
+             positions; the positions of such items are compared only where ops 1-3 / 20-22 are used. *)
           match get_slot st slot with
           | Some f => (st, [1])
           | None => (st, EMPTY) end
   | 19 => (* round-trip check: the crate serializes, deserializes, compares the copy with the original (==) and
              reports [copy == original; image length].  The model answers by the round-trip theorem (Props/C11_bloom.v)
              and the size formula (Props/C18_bloom.v) without building the byte list, so filters of 2^20 bits cost
-             it nothing. *)
+             it nothing.
+             NOTE: as for op 18 this is a SPEC check on the crate (deserialize(serialize f) == f, image length by
+             the formula; the length does depend on the model's state), NOT a byte-for-byte model-vs-crate
+             comparison; the bytes are compared by ops 9 / 10 / 16 on filters up to 2^16 bits. *)
           match get_slot st slot with
           | Some f => (st, [1; if bf_is_empty f then 24 else 32 + 8 * Z.of_nat (length (bf_words f))])
           | None => (st, EMPTY) end
@@ -150,9 +156,16 @@ Definition run (cfg : list Z) (ops : list zop) : list (list Z) :=
      roundtrip                       : succeeds (and the set is unchanged afterwards)
      info                            : capacity = 64 * ceil(num_bits / 64); is_empty iff set empty *)
 Record sp := mkSp { sp_nh : Z; sp_seed : Z; sp_set : list bool }.
-Definition ospec := list (option sp).
-Definition og (st : ospec) (i : Z) : option sp := nth (Z.to_nat i) st None.
-Definition op_ (st : ospec) (i : Z) (v : option sp) : ospec := set_nth (Z.to_nat i) v st.
+(* what the Spec knows about a slot: it holds no filter (every operation on it must be observed as EMPTY); it
+   holds the filter denoting a known set; or it holds a filter about which nothing is claimed (only after the
+   crate accepted an image the layout specification rejects) *)
+Inductive sslot := SEmpty | SKnown (s : sp) | SUnknown.
+Definition ospec := list sslot.
+Definition og (st : ospec) (i : Z) : sslot := nth (Z.to_nat i) st SEmpty.
+Definition op_ (st : ospec) (i : Z) (v : sslot) : ospec := set_nth (Z.to_nat i) v st.
+Definition is_empty_obs (ob : list Z) : bool := list_eqb Z.eqb ob EMPTY.
+Definition is_nil (ob : list Z) : bool := match ob with [] => true | _ => false end.
+Definition obs_done (obr : list (list Z)) : bool := match obr with [] => true | _ => false end.
 
 Definition sp_cap (s : sp) : Z := Z.of_nat (length (sp_set s)).
 Definition card (v : list bool) : Z := Z.of_nat (length (filter (fun b => b) v)).
@@ -193,6 +206,9 @@ Definition serialize_ok (s : sp) (bs : list Z) : bool :=
 Definition sp_of_abs (d : bloom_abs) : sp := mkSp (Nz (a_nh d)) (Nz (a_seed d)) (spec_set (a_words d)).
 Definition image_spec (bs : list Z) : option sp :=
   match spec_decode (map zN bs) with Some d => Some (sp_of_abs d) | None => None end.
+(* the slot after the crate ACCEPTED an image: the state the specification reads from it *)
+Definition image_slot (bs : list Z) : sslot :=
+  match image_spec bs with Some s => SKnown s | None => SUnknown end.
 
 (* C12 + C18 on one serialize() observation: the independent layout decoder recovers exactly the
    Spec's state (configuration, bit set, cardinality), and the image has the size the
@@ -211,86 +227,102 @@ Fixpoint count_spec (s : sp) (l : list Z) (acc : Z) : Z :=
   | _ => acc
   end.
 
+(* the documented preconditions, as the Spec knows them: the builder's ranges (bloom/builder.rs: MIN/MAX_NUM_BITS =
+   1 .. (2^31 - 1 - 4) * 64, MIN/MAX_NUM_HASHES = 1 .. 32767), with_accuracy's (max_items > 0, 0 < fpp <= 1.0: the bit
+   patterns of the positive doubles up to 1.0 are 1 .. 0x3FF0000000000000) *)
+Definition new_args_ok (num_bits nh : Z) : bool :=
+  (1 <=? num_bits) && (num_bits <=? 137438953152) && (1 <=? nh) && (nh <=? 32767).
+Definition accuracy_args_ok (n pbits : Z) : bool :=
+  (1 <=? n) && (1 <=? pbits) && (pbits <=? 4607182418800017408).
+
 (* [chk] judges a serialize() observation; [strict] additionally demands that every image the layout
-   specification accepts is accepted by the crate (C13) *)
+   specification accepts is accepted by the crate (C13).
+   Every observation is judged, in full: an observation of the wrong shape, an unexplained EMPTY, ops and observations
+   of different lengths, and any PANIC the Spec does not predict (it predicts exactly: builder arguments out of range,
+   union / intersect of incompatible filters) make the oracle fail.  A predicted PANIC must be the last observation
+   (the harness stops a case at its first panic). *)
 Fixpoint prop_from (chk : sp -> list Z -> bool) (strict : bool) (st : ospec) (ops : list zop) (obs : list (list Z)) : bool :=
   match ops, obs with
+  | [], [] => true
   | (code, a) :: r, ob :: obr =>
       let slot := nth 0 a 0 in
-      if list_eqb Z.eqb ob PANIC then true else
+      (* (a thunk: evaluation is strict in the extracted code) *)
+      let continue := fun _ : unit => prop_from chk strict st r obr in
+      let panics := list_eqb Z.eqb ob PANIC in
+      (* an operation on one slot: EMPTY iff the slot holds nothing; [known s] judges it on a known set *)
+      let on_slot (known : sp -> bool) : bool :=
+        match og st slot with
+        | SEmpty => is_empty_obs ob && continue tt
+        | SUnknown => negb panics && continue tt
+        | SKnown s => negb panics && known s
+        end in
       match norm_code code with
-      | 0 => let words := (nth 1 a 0 + 63) / 64 in
-             prop_from chk strict (op_ st slot (Some (mkSp (nth 2 a 0) (nth 3 a 0) (repeat false (Z.to_nat (64 * words)))))) r obr
-      | 1 => match og st slot with
-             | Some s => prop_from chk strict (op_ st slot (Some (sp_insert s (nth 2 a 0) (nth 3 a 0)))) r obr
-             | None => prop_from chk strict st r obr end
-      | 2 => match og st slot with
-             | Some s => (nth 0 ob (-1) =? zbool (sp_contains s (nth 2 a 0) (nth 3 a 0))) && prop_from chk strict st r obr
-             | None => prop_from chk strict st r obr end
-      | 3 => match og st slot with
-             | Some s => (nth 0 ob (-1) =? zbool (sp_contains s (nth 2 a 0) (nth 3 a 0)))
-                         && prop_from chk strict (op_ st slot (Some (sp_insert s (nth 2 a 0) (nth 3 a 0)))) r obr
-             | None => prop_from chk strict st r obr end
-      | 4 => match og st slot, og st (nth 1 a 0) with
-             | Some s, Some t => if sp_compatible s t
-                                 then prop_from chk strict (op_ st slot (Some (mkSp (sp_nh s) (sp_seed s) (map2 orb (sp_set s) (sp_set t))))) r obr
-                                 else prop_from chk strict (op_ st slot None) r obr
-             | _, _ => prop_from chk strict (op_ st slot None) r obr end
-      | 5 => match og st slot, og st (nth 1 a 0) with
-             | Some s, Some t => if sp_compatible s t
-                                 then prop_from chk strict (op_ st slot (Some (mkSp (sp_nh s) (sp_seed s) (map2 andb (sp_set s) (sp_set t))))) r obr
-                                 else prop_from chk strict (op_ st slot None) r obr
-             | _, _ => prop_from chk strict (op_ st slot None) r obr end
-      | 6 => match og st slot with
-             | Some s => prop_from chk strict (op_ st slot (Some (mkSp (sp_nh s) (sp_seed s) (map negb (sp_set s))))) r obr
-             | None => prop_from chk strict st r obr end
-      | 7 => match og st slot with
-             | Some s => prop_from chk strict (op_ st slot (Some (mkSp (sp_nh s) (sp_seed s) (map (fun _ => false) (sp_set s))))) r obr
-             | None => prop_from chk strict st r obr end
-      | 8 => match og st slot with
-             | Some s => (nth 0 ob (-1) =? card (sp_set s)) && prop_from chk strict st r obr
-             | None => prop_from chk strict st r obr end
-      | 9 => match og st slot with
-             | Some s => chk s ob && prop_from chk strict st r obr
-             | None => prop_from chk strict st r obr end
-      | 10 => match og st slot with
-              | Some s => list_eqb Z.eqb ob [1] && prop_from chk strict st r obr
-              | None => prop_from chk strict st r obr end
-      | 11 => if list_eqb Z.eqb ob [1] then prop_from chk strict (op_ st slot (image_spec (skipn 1 a))) r obr
-              else if strict then match image_spec (skipn 1 a) with Some _ => false | None => prop_from chk strict st r obr end
-              else prop_from chk strict st r obr
-      | 12 => match og st slot with
-              | Some s => (nth 0 ob (-1) =? sp_cap s) && (nth 1 ob (-1) =? sp_nh s) && (nth 2 ob (-1) =? sp_seed s)
-                          && (nth 3 ob (-1) =? zbool (card (sp_set s) =? 0)) && prop_from chk strict st r obr
-              | None => prop_from chk strict st r obr end
+      | 0 => if new_args_ok (nth 1 a 0) (nth 2 a 0)
+             then is_nil ob &&
+                  prop_from chk strict (op_ st slot (SKnown (mkSp (nth 2 a 0) (nth 3 a 0)
+                                        (repeat false (Z.to_nat (64 * ((nth 1 a 0 + 63) / 64))))))) r obr
+             else panics && obs_done obr
+      | 1 => on_slot (fun s => is_nil ob && prop_from chk strict (op_ st slot (SKnown (sp_insert s (nth 2 a 0) (nth 3 a 0)))) r obr)
+      | 2 => on_slot (fun s => list_eqb Z.eqb ob [zbool (sp_contains s (nth 2 a 0) (nth 3 a 0))] && continue tt)
+      | 3 => on_slot (fun s => list_eqb Z.eqb ob [zbool (sp_contains s (nth 2 a 0) (nth 3 a 0))]
+                               && prop_from chk strict (op_ st slot (SKnown (sp_insert s (nth 2 a 0) (nth 3 a 0)))) r obr)
+      | 4 | 5 =>
+             let g := if norm_code code =? 4 then orb else andb in
+             match og st slot, og st (nth 1 a 0) with
+             | SEmpty, _ | _, SEmpty => is_empty_obs ob && continue tt
+             | SKnown s, SKnown t =>
+                 if sp_compatible s t
+                 then is_nil ob && prop_from chk strict (op_ st slot (SKnown (mkSp (sp_nh s) (sp_seed s) (map2 g (sp_set s) (sp_set t))))) r obr
+                 else panics && obs_done obr                        (* the documented assertion *)
+             | _, _ => if panics then obs_done obr else prop_from chk strict (op_ st slot SUnknown) r obr
+             end
+      | 6 => on_slot (fun s => is_nil ob && prop_from chk strict (op_ st slot (SKnown (mkSp (sp_nh s) (sp_seed s) (map negb (sp_set s))))) r obr)
+      | 7 => on_slot (fun s => is_nil ob && prop_from chk strict (op_ st slot (SKnown (mkSp (sp_nh s) (sp_seed s) (map (fun _ => false) (sp_set s))))) r obr)
+      | 8 => on_slot (fun s => list_eqb Z.eqb ob [card (sp_set s)] && continue tt)
+      | 9 => on_slot (fun s => chk s ob && continue tt)
+      | 10 => on_slot (fun s => list_eqb Z.eqb ob [1] && continue tt)
+      | 11 => (* deserialize bytes; a rejected image leaves the slot as it was *)
+              if list_eqb Z.eqb ob [1] then prop_from chk strict (op_ st slot (image_slot (skipn 1 a))) r obr
+              else list_eqb Z.eqb ob ERR &&
+                   (if strict then match image_spec (skipn 1 a) with Some _ => false | None => continue tt end else continue tt)
+      | 12 => on_slot (fun s => list_eqb Z.eqb ob [sp_cap s; sp_nh s; sp_seed s; zbool (card (sp_set s) =? 0)] && continue tt)
+      | 13 => match og st slot, og st (nth 1 a 0) with
+              | SEmpty, _ | _, SEmpty => is_empty_obs ob && continue tt
+              | SKnown s, SKnown t => list_eqb Z.eqb ob [zbool (sp_compatible s t)] && continue tt
+              | _, _ => negb panics && continue tt
+              end
       | 14 => (* sizing is transcendental: take the crate's own answer for capacity / num_hashes - but it must be what
                  the builder documents: at least MIN_NUM_BITS rounded up to whole words, 1 <= num_hashes <= 32767 *)
-              (64 <=? nth 0 ob 0) && (nth 0 ob 0 mod 64 =? 0) && (1 <=? nth 1 ob 0) && (nth 1 ob 0 <=? 32767) &&
-              prop_from chk strict (op_ st slot (Some (mkSp (nth 1 ob 0) (nth 3 a 0) (repeat false (Z.to_nat (nth 0 ob 0)))))) r obr
+              if accuracy_args_ok (nth 1 a 0) (nth 2 a 0)
+              then match ob with
+                   | [c; k] => (64 <=? c) && (c mod 64 =? 0) && (1 <=? k) && (k <=? 32767) &&
+                               prop_from chk strict (op_ st slot (SKnown (mkSp k (nth 3 a 0) (repeat false (Z.to_nat c))))) r obr
+                   | _ => false
+                   end
+              else panics && obs_done obr
+      | 15 => on_slot (fun s => list_eqb Z.eqb ob [count_spec s (skipn 2 a) 0] && (count_spec s (skipn 2 a) 0 <=? nth 1 a 0) && continue tt)
       | 16 => (* fork: the copy denotes the same set; the round trip of a known state must succeed *)
               match og st slot with
-              | Some s => list_eqb Z.eqb ob [1] && prop_from chk strict (op_ st (nth 1 a 0) (Some s)) r obr
-              | None => prop_from chk strict (op_ st (nth 1 a 0) None) r obr end
-      | 17 => if list_eqb Z.eqb ob [1] then prop_from chk strict (op_ st slot (image_spec (skipn 1 a))) r obr
-              else if strict && negb (list_eqb Z.eqb ob ALLOC)
-                   then match image_spec (skipn 1 a) with Some _ => false | None => prop_from chk strict (op_ st slot None) r obr end
-              else prop_from chk strict (op_ st slot None) r obr
-      | 19 => match og st slot with
-              | Some s => list_eqb Z.eqb ob [1; if card (sp_set s) =? 0 then 24 else 32 + sp_cap s / 8] && prop_from chk strict st r obr
-              | None => prop_from chk strict st r obr end
-      | 18 => match og st slot with
-              | Some s => list_eqb Z.eqb ob [1] && prop_from chk strict st r obr      (* no false negatives *)
-              | None => prop_from chk strict st r obr end
-      | 15 => match og st slot with
-              | Some s => (nth 0 ob (-1) =? count_spec s (skipn 2 a) 0) && (nth 0 ob (-1) <=? nth 1 a 0) && prop_from chk strict st r obr
-              | None => prop_from chk strict st r obr end
-      | _ => prop_from chk strict st r obr
+              | SEmpty => is_empty_obs ob && continue tt
+              | SKnown s => list_eqb Z.eqb ob [1] && prop_from chk strict (op_ st (nth 1 a 0) (SKnown s)) r obr
+              | SUnknown => if list_eqb Z.eqb ob [1] then prop_from chk strict (op_ st (nth 1 a 0) SUnknown) r obr
+                            else list_eqb Z.eqb ob ERR && continue tt
+              end
+      | 17 => (* parse with allocation accounting; the slot is cleared first *)
+              if list_eqb Z.eqb ob [1] then prop_from chk strict (op_ st slot (image_slot (skipn 1 a))) r obr
+              else (list_eqb Z.eqb ob ERR || list_eqb Z.eqb ob ALLOC) &&
+                   (if strict && negb (list_eqb Z.eqb ob ALLOC)
+                    then match image_spec (skipn 1 a) with Some _ => false | None => prop_from chk strict (op_ st slot SEmpty) r obr end
+                    else prop_from chk strict (op_ st slot SEmpty) r obr)
+      | 18 => on_slot (fun s => list_eqb Z.eqb ob [1] && continue tt)      (* no false negatives *)
+      | 19 => on_slot (fun s => list_eqb Z.eqb ob [1; if card (sp_set s) =? 0 then 24 else 32 + sp_cap s / 8] && continue tt)
+      | _ => false
       end
-  | _, _ => true
+  | _, _ => false
   end.
 
 Definition prop_with (chk : sp -> list Z -> bool) (strict : bool) (c : case) : bool :=
-  prop_from chk strict (repeat None (Z.to_nat (nth 0 (c_cfg c) 8))) (c_ops c) (c_obs c).
+  prop_from chk strict (repeat SEmpty (Z.to_nat (nth 0 (c_cfg c) 8))) (c_ops c) (c_obs c).
 
 (* C09: the position-set Spec *)
 Definition prop_ok : case -> bool := prop_with serialize_ok false.
@@ -307,9 +339,10 @@ Definition prop_layout : case -> bool := prop_with layout_ok false.
    (in particular one it accepted from untrusted bytes) can be re-serialized and read back *)
 Fixpoint usable_from (ops : list zop) (obs : list (list Z)) : bool :=
   match ops, obs with
+  | [], [] => true
   | (code, _) :: r, ob :: obr =>
       negb (((code =? 10) || (code =? 16)) && list_eqb Z.eqb ob ERR) && usable_from r obr
-  | _, _ => true
+  | _, _ => false
   end.
 Definition no_panic (c : case) : bool := no_panic_oracle c && usable_from (c_ops c) (c_obs c).
 
